@@ -497,9 +497,10 @@ Proof.
   - destruct (S1 eq_refl) as (Z1 & r' & Z2 & _). rewrite Z2, Z1. repeat split; try discriminate; lia.
   - specialize (S2 eq_refl). unfold rd_post in S2. cbv zeta in S2. destruct S2 as [A0 A1].
     assert ((if (mr_tl r =? 0)%Z then 8 else 0) <= 8) by (destruct (mr_tl r =? 0)%Z; lia).
-    destruct (fst (mr_read fixed n r)) as [[x r']| |]; repeat split; try discriminate; try lia.
-    + intros X; apply A1; congruence.
-    + intros ->. discriminate.
+    destruct (fst (mr_read fixed n r)) as [[x r']|e|].
+    + repeat split; try discriminate; lia.
+    + repeat split; try discriminate; try lia; intros X; apply A1; congruence.
+    + repeat split; try discriminate; try lia; intros ->; discriminate.
 Qed.
 
 Theorem read_value_total fixed bs r :
@@ -536,4 +537,87 @@ Theorem execall_next_total fixed bs r :
 Proof.
   intros HI Hbs. unfold execall_next.
   eapply st_total_of; [apply (execall_loop_spec fixed bs (rv_fuel r) r HI Hbs); unfold rv_fuel; lia|]. lia.
+Qed.
+
+(* ---------------- ReadFully ---------------- *)
+Lemma rf_collect_spec chunks : forall acc msz acc' full,
+  rf_collect chunks acc msz = (acc', full) ->
+  len acc' <= len acc + len (concat chunks) /\ len acc <= len acc' /\ (full = true -> msz <= len acc').
+Proof.
+  induction chunks as [|c r IH]; intros acc msz acc' full; cbn [rf_collect].
+  - destruct (N.leb_spec msz (len acc)); intros E.
+    + assert (acc' = acc) by congruence. assert (full = true) by congruence. subst. simpl concat. rewrite len_nil. lia.
+    + assert (acc' = acc) by congruence. assert (full = false) by congruence. subst. simpl concat. rewrite len_nil.
+      repeat split; try lia; discriminate.
+  - destruct (N.leb_spec msz (len acc)); intros E.
+    + assert (acc' = acc) by congruence. assert (full = true) by congruence. subst. rewrite len_concat_cons. lia.
+    + apply IH in E. rewrite len_app in E. rewrite len_concat_cons. destruct E as (E1 & E2 & E3).
+      repeat split; try lia; exact E3.
+Qed.
+
+(* repaired ReadFully: never panics, allocates no more than it received *)
+Theorem read_fully_fixed_total s :
+  st_total true (read_fully true s) (len (concat (s_chunks s))).
+Proof.
+  unfold st_total, read_fully. destruct (s_chunks s) as [|c rest].
+  { unfold merr. cbn [fst snd]. repeat split; try discriminate; try lia;
+    destruct (s_final_eof s); discriminate. }
+  rewrite len_concat_cons.
+  destruct (N.ltb_spec (len c) 8).
+  { unfold merr. cbn [fst snd]. repeat split; try discriminate; lia. }
+  unfold mbind, lift. cbn [fst snd].
+  rewrite uint_ok by (change (N.of_nat 8) with 8; lia). cbn [fst snd].
+  rewrite from_ok by lia. cbn [fst snd].
+  destruct (9223372036854775807 <? be_dec (firstn 8 c) mod 18446744073709551616).
+  { unfold merr. cbn [fst snd]. repeat split; try discriminate; lia. }
+  destruct (rf_collect rest (drop 8 c) (be_dec (firstn 8 c) mod 18446744073709551616)) as [acc full] eqn:E.
+  apply rf_collect_spec in E as (E1 & E2 & E3). rewrite len_drop in E1.
+  unfold alloc. cbn [fst snd].
+  destruct full; unfold mret, merr; cbn [fst snd].
+  - repeat split; try discriminate; lia.
+  - repeat split; try discriminate; try lia; destruct (s_final_eof s); discriminate.
+Qed.
+
+(* ---------------- the code as found: witnesses ---------------- *)
+Definition st_witness_neg : strm := {| s_chunks := [[128; 0; 0; 0; 0; 0; 0; 0]]; s_final_eof := true |}.
+Definition st_witness_big : strm := {| s_chunks := [[0; 0; 0; 0; 16; 0; 0; 0; 1; 2; 3; 4]]; s_final_eof := true |}.
+
+(* one chunk of 8 bytes announcing a message length with the top bit set crashes every receiver
+   built on msgReceiver.Read (here: the first Read, and the key of a key/value stream) *)
+Theorem mr_read_refuted :
+  exists s, len (concat (s_chunks s)) = 8 /\
+    fst (mr_read false 8 (mr_new s)) = Panic /\ fst (kv_next false 8 (mr_new s)) = Panic.
+Proof. exists st_witness_neg. vm_compute. repeat split. Qed.
+Example mr_read_witness_fixed :
+  fst (mr_read true 8 (mr_new st_witness_neg)) = Err ESInvalidLength.
+Proof. vm_compute. reflexivity. Qed.
+
+(* ReadFully as found: the same chunk panics; a 12-byte chunk announcing 256 MiB makes it allocate
+   256 MiB before it reports that the stream ended early *)
+Theorem read_fully_refuted :
+  fst (read_fully false st_witness_neg) = Panic /\
+  (exists s, len (concat (s_chunks s)) = 12 /\ 268435456 <= snd (read_fully false s) /\
+             is_ok (fst (read_fully false s)) = false).
+Proof. split; [vm_compute; reflexivity|]. exists st_witness_big. vm_compute. repeat split; discriminate. Qed.
+Example read_fully_witness_fixed :
+  fst (read_fully true st_witness_neg) = Err ESInvalidLength /\ snd (read_fully true st_witness_big) = 4.
+Proof. vm_compute. split; reflexivity. Qed.
+
+(* what remains true of the code as found: it terminates and stays within the same memory bound;
+   only the panic is possible (st_total false) *)
+
+(* fresh receivers: every stream, i.e. every byte string and every way of chunking it *)
+Corollary stream_fresh_total fixed bs s :
+  bs <= 281474976710656 ->
+  let L := len (concat (s_chunks s)) in
+  st_total fixed (mr_read fixed bs (mr_new s)) (8 + bs) /\
+  st_total fixed (kv_next fixed bs (mr_new s)) (2 * L + W bs) /\
+  st_total fixed (z_next fixed bs (mr_new s)) (2 * L + 4 * W bs + 16) /\
+  st_total fixed (ventry_next fixed bs (mr_new s)) (2 * L + 3 * W bs) /\
+  st_total fixed (execall_next fixed bs (mr_new s)) ((L + 2) * W bs + 2 * L).
+Proof.
+  intros Hbs L. destruct (mr_new_inv s) as [HI HA]. unfold L. rewrite <- HA.
+  repeat split.
+  all: first [ apply mr_read_total | apply kv_next_total | apply z_next_total
+             | apply ventry_next_total | apply execall_next_total ]; auto.
 Qed.
